@@ -75,7 +75,14 @@ def annotate_loops(body, loops, exlog):
             own = any(re.match(r"\s*(invariant_except_break|invariant|ensures|decreases)\b", l) for l in inv)
             new = f"{ml.group(1)}\n" + ("" if own else "    invariant\n") + "\n".join(inv) + "\n    {"
         elif m:
-            new = f"for {m.group(1)} in it: {m.group(2)}\n    invariant\n" + "\n".join(inv) + "\n    {"
+            # an `iter=<name>` clause line names the ghost iterator (default `it`; nested loops need distinct names)
+            itname = "it"
+            for l in list(inv):
+                mi = re.match(r"\s*iter=(\w+)\s*,?\s*$", l)
+                if mi:
+                    itname = mi.group(1)
+                    inv = [x for x in inv if x is not l]
+            new = f"for {m.group(1)} in {itname}: {m.group(2)}\n    invariant\n" + "\n".join(inv) + "\n    {"
         else:
             raise extract.ExtractError(f"loop header `{header}` is not a `for P in E {{` or `loop {{` header")
         body = body.replace(header, new)
